@@ -872,26 +872,38 @@ def optimize_targets():
             Target('do_optimize', [dop], 'specs/C13/opt_common.h', replace=['tuner_evaluate', 'tuner_local_search'], cbmc_flags=CADICAL)]
 
 
-TYPES_L = [(r'^nano::igrids_t$|^std::vector<nano::tensor_t<nano::tensor_vector_storage_t, long, 1', 'struct nv_ivecs'),
+TYPES_L = [(r'^nano::igrids_t$|^std::vector<igrid_t>$|^std::vector<nano::tensor_t<nano::tensor_vector_storage_t, long, 1', 'struct nv_ivecs'),
            (r'combinatorial_iterator_t<', 'struct nv_comb'),
            (r'igrid_t$|indices_t$|tensor_mem_t<long, 1|tensor_vector_storage_t, long, 1|ArrayWrapper<|CwiseBinaryOp<', 'struct nv_ivec'),
-           (r'^nano::param_spaces_t$|std::vector<nano::param_space_t', 'struct nv_spaces'), (r'^nano::param_space_t$', 'struct nv_space'),
+           (r'allocator<nano::param_space_t>.*value_type|^nano::param_space_t$', 'struct nv_space'),
+           (r'^nano::param_spaces_t$|std::vector<nano::param_space_t', 'struct nv_spaces'),
            (r'^nano::tensor2d_t$|tensor_vector_storage_t, double, 2', 'struct nv_grid')]
-CALLS_L = [(r'^make_full_tensor\|', 'nv_ivec_full({0}, {1})'), (r'^make_dims\|', '({0})'),
+CALLS_L = [(r'^operator\[\]\|.*std::vector<nano::param_space_t', '(*nv_spaces_at({&0}, {1}))'),
+           (r'^operator\[\]\|.*std::vector<nano::tensor_t', '(*nv_ivecs_at({&0}, {1}))'),
+           (r'^operator\(\)\|.*\|.*tensor_vector_storage_t, long, 1', '(*nv_ivec_at({&0}, {1}))'),
+           (r'^operator\(\)\|.*\|.*tensor_vector_storage_t, double, 1', 'nv_space_value({&0}, {1})'),
+           (r'^operator\(\)\|.*\|.*tensor_vector_storage_t, double, 2', '(*nv_grid_at({&0}, {1}, {2}))'),
+           (r'^ctor\|(nano::tensor2d_t|nano::tensor_t<nano::tensor_vector_storage_t, double, 2>)\|void \((const )?(long|nano::tensor_size_t)', 'nv_grid_new({0}, {1})'),
+           (r'^ctor\|(nano::igrid_t|nano::indices_t|nano::tensor_t<nano::tensor_vector_storage_t, long, 1>)\|void \((const )?(long|nano::tensor_size_t)', 'nv_ivec_new({0})'),
+           (r'^make_full_tensor\|', 'nv_ivec_full({0}, {1})'), (r'^make_dims\|', '({0})'),
            (r'^ctor\|(nano::igrids_t|std::vector<nano::tensor_t<.*long, 1>>)\|void \(\)', 'nv_ivecs_empty()'),
            (r'^ctor\|nano::combinatorial_iterator_t<', 'nv_comb_make({&0})'),
            (r'^operator\+\+\|.*combinatorial_iterator_t', 'nv_comb_next({&0})'), (r'^operator\*\|.*\|.*combinatorial_iterator_t', '({0}.cur)'),
            (r'^operator=\|.*ArrayWrapper', '({0} = {1})'),
            (r'^operator-\|.*\(const (int|long|Scalar) &\)', 'nv_ivec_sub_s({0}, {1})'), (r'^operator-\|', 'nv_ivec_sub({0}, {1})'),
            (r'^operator\*\|', 'nv_ivec_mul_s({0}, {1})'), (r'^operator\+\|', 'nv_ivec_add({0}, {1})'), (r'^move\|', '{0}')]
-MEMBERS_L = [(r'^size\|.*tensor', '({self}->n)'), (r'^array\|', '(*{self})'), (r'^operator bool\|.*combinatorial_iterator_t', '({self}->k < {self}->total)'),
+MEMBERS_L = [(r'^size\|.*std::vector', '((uint64_t)({self}->n))'), (r'^values\|.*param_space_t', '(*{self})'),
+             (r'^size\|.*tensor', '({self}->n)'), (r'^array\|', '(*{self})'), (r'^operator bool\|.*combinatorial_iterator_t', '({self}->k < {self}->total)'),
              (r'^minCoeff\|', 'nv_ivec_min({*self})'), (r'^emplace_back\|.*std::vector<nano::tensor_t', 'nv_ivecs_push({self}, {0})')]
 LS_A = dict(types=TYPES_L, calls=CALLS_L, members=MEMBERS_L)
 
 
 def local_search_targets():
     ls = Fn('tuner_local_search', TU_U, 'local_search', flt='nano::local_search', **LS_A)
-    return [Target('local_search', [ls], 'specs/C13/local_search.h', cbmc_flags=CADICAL)]
+    mk_ = lambda nm: Fn(f'tuner_{nm}', TU_U, nm, flt=f'nano::{nm}', **LS_A)
+    return [Target('local_search', [ls], 'specs/C13/local_search.h', cbmc_flags=CADICAL)] + \
+        [Target(nm, [mk_(nm)], 'specs/C13/local_search.h', cbmc_flags=CADICAL)
+         for nm in ('make_min_igrid', 'make_max_igrid', 'make_avg_igrid', 'map_to_grid')]
 
 
 def build(tier):
